@@ -1140,7 +1140,15 @@ func (g *DocGen) Schema(path []string, depth int) obj {
 						asArray = (g.Variant+i)%2 == 0
 					}
 					if asArray {
-						d[nm] = []interface{}{g.name() + "d", "other"}
+						// a property dependency names one or more other properties
+						switch (g.Variant + i + g.R.Intn(3)) % 3 {
+						case 0:
+							d[nm] = []interface{}{g.name() + "d"}
+						case 1:
+							d[nm] = []interface{}{g.name() + "d", "other"}
+						default:
+							d[nm] = []interface{}{g.name() + "d", "other", "third one"}
+						}
 					} else {
 						d[nm] = subSchema("dependencies", nm)
 					}
